@@ -5,8 +5,10 @@ import (
 	"context"
 	"fmt"
 	"math"
+	"net"
 	"sort"
 	"strings"
+	"sync"
 	"time"
 
 	"github.com/tsuna/gohbase/compression"
@@ -797,8 +799,87 @@ func c05Units(thorough bool) []*explore.Unit {
 	return units
 }
 
+// c05Race: several goroutines sending on one real region client (plain and
+// compressed), free-running for the race detector; the server decodes with the
+// independent codec and every value must belong to its row.
+func c05Race() []RaceBody {
+	run := func(codec compression.Codec) func(iter int) error {
+		return func(iter int) error {
+			conn := &sim.Conn{Name: "rs1:1"}
+			dial := func(ctx context.Context, network, addr string) (net.Conn, error) { return conn, nil }
+			rc := region.NewClient("rs1:1", region.RegionClient, 3, time.Millisecond, "root", 30*time.Second, codec, dial, quietLogger)
+			reg := region.NewInfo(1, nil, []byte("t"), []byte("t,,1"), nil, nil)
+			srv := &sim.Server{Conn: conn, Compressed: codec != nil}
+			if err := rc.Dial(context.Background()); err != nil {
+				return err
+			}
+			go srv.ServeReal(func(f *sim.Frame) []byte {
+				resp, cells := answer(f)
+				return sim.EncodeResponseC(f.Header.GetCallId(), resp, nil, cells, codec != nil)
+			})
+			var wg sync.WaitGroup
+			errs := make(chan error, 64)
+			for g := 0; g < 4; g++ {
+				g := g
+				wg.Add(1)
+				go func() {
+					defer wg.Done()
+					for j := 0; j < 4; j++ {
+						key := fmt.Sprintf("g%dk%d", g, j)
+						var opts []func(hrpc.Call) error
+						if (g+j)%2 == 0 {
+							opts = append(opts, hrpc.SkipBatch())
+						}
+						val := bytes.Repeat([]byte(key), 40)
+						p, _ := hrpc.NewPutStr(context.Background(), "t", key, map[string]map[string][]byte{"f": {"q": val}}, opts...)
+						p.SetRegion(reg)
+						rc.QueueRPC(p)
+						select {
+						case res := <-p.ResultChan():
+							if res.Error != nil {
+								errs <- fmt.Errorf("put %s: %v", key, res.Error)
+								return
+							}
+						case <-time.After(20 * time.Second):
+							errs <- fmt.Errorf("put %s: no response", key)
+							return
+						}
+					}
+				}()
+			}
+			wg.Wait()
+			rc.Close()
+			vrt.HLock()
+			defer vrt.HUnlock()
+			if len(srv.Errors) > 0 {
+				return fmt.Errorf("the independent decoder rejected the stream: %v", srv.Errors)
+			}
+			n := 0
+			for _, fr := range srv.Frames {
+				for _, c := range fr.Cells {
+					n++
+					if !bytes.Equal(c.Value, bytes.Repeat(c.Row, 40)) {
+						return fmt.Errorf("row %q was written with another request's value %.20q", c.Row, c.Value)
+					}
+				}
+			}
+			select {
+			case e := <-errs:
+				return e
+			default:
+			}
+			if n != 16 {
+				return fmt.Errorf("%d cells reached the server, 16 were sent", n)
+			}
+			return nil
+		}
+	}
+	return []RaceBody{{"4 senders plain", run(nil)}, {"4 senders snappy", run(compression.New("snappy"))}}
+}
+
 func init() {
 	register(&Prop{
+		Race: c05Race,
 		ID: "C05", Level: "model_checking",
 		Technique: "every call shape / multi grouping sent through the real region client and parsed by an independent wire decoder (field-by-field comparison with the requested operation); concurrent senders on a non-TCP connection under all schedules with <=2 deviations",
 		Rule: "(1) shapes: 5 mutation kinds x 5 value-map shapes x 5 timestamps x 5 durabilities x TTL (one factor at a time plus a third of the pairs; thorough: full product), check-and-put, gets with 10 options singly and in pairs, scans with 9 options x 3 bounds, scanner continue/close/renew; plain and snappy; (2) one multi-request for every sequence of 1-4 calls over two regions and 7 sequences over three regions (put/get/delete mixed), plain and snappy; (3) 2-3 concurrent senders (unbatched cellblock calls, a multi flush racing an unbatched call) on an in-memory net.Conn where a gather write is several Writes, all schedules with <=2 deviations; (4) values around 1 and 2 compression chunks. Oracle: preamble and connection header, frame length, unique call ids, method name, priority, cell_block_meta.length = trailing bytes, cells = sum of associated_cell_count, decoded operation = requested operation, region name per action, per-region batch order. Non-trivial = every unit (distinct shapes / schedules).",
